@@ -393,6 +393,10 @@ func runC20(r *Run) {
 		r.atLeast("request-cookie visitors in the module", n, 1)
 	})
 
+	r.rule("R9", "a truncated value is an error, not a crash: where DecryptCookie (or any function of the package) cuts the decoded bytes at a position it took from elsewhere (the nonce size), the length it compared that position with is the length of the bytes it cuts — not of the text before decoding (contradiction rule, E1)", func() {
+		sliceBoundOnItsOwnValueRule(r, encPkg)
+	})
+
 	r.rule("R8", "what the handler sees under a name is exactly the one rewritten cookie: every rewrite of a request cookie in the decrypt loop is preceded, in the same iteration, by DelCookie(name) — SetCookie replaces the first cookie of that name only, a second one sent by the client would stay as sent (E1 ordering)", func() {
 		h := encHandler(r)
 		reads := callsMatching(h, false, nameHasSuffix("fasthttp.RequestHeader).Cookie"))
